@@ -128,3 +128,28 @@ Definition spine_insert (its : list item) : option ntree :=
   | Some (fs, Some t) => Some (close fs t)
   | _ => None
   end.
+
+(* ---- (2) bracket-free operator expressions of any length: values, prefix, suffix and
+   binary operators (every token of each class), whitespace anywhere between tokens.
+   [after]: an operand has just been completed; [spaced]: whitespace seen since the last
+   significant token.  A value or prefix operator directly after a completed operand is
+   only allowed across whitespace (the implicit space list). ---- *)
+Fixpoint opexpr_from (toks : list token_type) (after spaced : bool) : bool :=
+  match toks with
+  | [] => after && negb spaced
+  | t :: r =>
+    match ref_kind t with
+    | KSpace => opexpr_from r after true
+    | KValue => (negb after || spaced) && opexpr_from r true false
+    | KPrefix => (negb after || spaced) && opexpr_from r false false
+    | KBinary => after && opexpr_from r false false
+    | KSuffix => after && opexpr_from r true false
+    | _ => false
+    end
+  end.
+
+Definition operator_expression (toks : list token_type) : bool :=
+  match toks with
+  | t :: _ => negb (is_space_tok t) && opexpr_from toks false false
+  | [] => false
+  end.
